@@ -157,10 +157,12 @@ def draw_crash(rng: random.Random, eff: dict, lo: int, hi: int, end_it: int, las
     return {"seam": seam, "phase": phase, "perturb": pert}
 
 
-def draw_shipped_problem(rng: random.Random) -> dict:
+def draw_shipped_problem(rng: random.Random, kind: str | None = None) -> dict:
     """One of the four shipped problems at a small seeded parameterisation (Hydra-configured;
     Mirjalili carries tuple-valued parameters that have to survive the YAML round trip)."""
     k = rng.choice(["forest", "de_moor", "hendrix", "mirjalili"])
+    if kind is not None:
+        k = kind
     r2 = lambda lo, hi: round(rng.uniform(lo, hi), 2)  # noqa: E731
     if k == "forest":
         return {"kind": k, "params": {"S": rng.randint(3, 9), "r1": r2(2, 6), "r2": r2(1, 3), "p": r2(0.02, 0.4)}}
